@@ -60,6 +60,13 @@ def finite(*xs):
     return all(isinstance(x, float) and x == x and not math.isinf(x) for x in xs)
 
 
+def sane(args):
+    for x in A.flat(tuple(args)):
+        if not finite(x) or (x != 0.0 and not (1e-100 <= abs(x) <= 1e100)):
+            return False
+    return True
+
+
 def valid_input(fn, args):
     """a valid gamma cavity and edge data: shapes > 0, rates > 0, count >= 0, span > 0, ages in order"""
     params = A.info()["meta"][fn]["params"]
@@ -158,7 +165,11 @@ def check_update(ctx, fn, args, tol_mean, with_ref, source):
         # an exception is neither a skip nor a result.  It is a violation on every input in EP's range
         # (recorded, perturbed, coherent); on the "wild" stream (independent magnitudes 1e-300..1e300, inf,
         # nan: not a range EP produces) assertions may fire and are only counted
-        if ok_in and source != "wild":
+        if out == "KLMinimizationFailedError":
+            # C18_skip_or_valid: for EVERY input the guards keep the projection inside its domain
+            ctx.oracle_fail("raises:%s:%s" % (fn, out), "the update is not skipped although its moments are not a "
+                            "positive mean and variance: approximate_gamma_mom raises", case)
+        elif ok_in and source != "wild":
             ctx.oracle_fail("raises:%s:%s" % (fn, out), "a valid update neither skips nor returns moments: it raises " + out, case)
         else:
             ctx.tally("raises-outside-ep-range:" + out)
@@ -166,6 +177,11 @@ def check_update(ctx, fn, args, tol_mean, with_ref, source):
     first = out[0]
     if first != first:
         return "skip"
+    if source == "wild" and not sane(args):
+        # magnitudes beyond 1e+-100: binary64 overflows (e.g. mean^2 of a count of 1e300) where the real-number
+        # theorem has no such limit; DESIGN.md section 11.  Only the exception clause above is checked there.
+        ctx.tally("wild-beyond-1e100-values-not-checked")
+        return "value"
     # --- finite moments, positive variance, phase in [0, 1]
     pars = [p for p in out[1:]]
     if not finite(first) and fn.startswith("mutation_"):
